@@ -366,10 +366,15 @@ static std::string gen_numeral(vf::Rng &r, uint64_t variant, const char *&cls, b
                 b          = (r.next() & 0x000FFFFFFFFFFFFFULL) | (e << 52);
                 if (r.chance(1, 3)) b &= ~uint64_t{0xFFFFF}; // many trailing zero bits: short expansions
             }
+            // 2 in 12: all-ones mantissa, so the upper neighbour is a power of two and rounding up carries out of the
+            // mantissa into the exponent; one of the two takes the power of two itself instead of the midpoint
+            const unsigned shape = r.below(12);
+            if (shape < 2) b |= 0x000FFFFFFFFFFFFFULL;
+            else if (shape == 2) b &= ~uint64_t{0x000FFFFFFFFFFFFF}; // lower neighbour is the power of two
             double      lo  = bdouble(b);
             double      hi  = bdouble(b + 1);
             if (std::isinf(hi)) hi = lo;
-            long double mid = ((long double)lo + (long double)hi) / 2.0L;
+            long double mid = (shape == 1) ? (long double)hi : ((long double)lo + (long double)hi) / 2.0L;
             std::string t   = exact_decimal(mid);
             unsigned    k   = r.below(3);
             if (k == 1) {
@@ -387,8 +392,27 @@ static std::string gen_numeral(vf::Rng &r, uint64_t variant, const char *&cls, b
                     t += "9999999";
                 }
             }
+            // long leading "0.000000" forms are kept: they exercise the fraction-only path; one in three is re-expressed
+            // with the point elsewhere and a compensating exponent (same value, other code path)
+            if (r.chance(1, 3) && t.size() < 700) {
+                size_t      dot = t.find('.');
+                std::string dg  = t;
+                long        ex  = 0;
+                if (dot != std::string::npos) {
+                    dg.erase(dot, 1);
+                    ex = -long(t.size() - dot - 1);
+                }
+                size_t nz = dg.find_first_not_of('0');
+                if (nz != std::string::npos && nz + 1 < dg.size()) {
+                    dg = dg.substr(nz);
+                    // new point after `keep` digits (0 = "0.ddd")
+                    size_t keep = r.below(uint32_t(dg.size() < 30 ? dg.size() : 30) + 1);
+                    long   e2   = ex + long(dg.size() - keep);
+                    std::string m = keep == 0 ? ("0." + dg) : (keep == dg.size() ? dg : dg.substr(0, keep) + "." + dg.substr(keep));
+                    t = m + (r.chance(1, 2) ? "e" : "E") + std::to_string(e2);
+                }
+            }
             s = sign + t;
-            // long leading "0.000000" forms are kept: they exercise the fraction-only path
             return s;
         }
         case 7: {
@@ -636,7 +660,7 @@ static long dec_diff_units(Dec a, Dec b, int unit_scale, int &cmp) {
     return q.empty() ? 0 : atol(q.c_str());
 }
 
-static std::string c10_class(double d, unsigned p, Digit::RealFormatType t, const std::string &got, const std::string &exp) {
+static std::string c10_class(double d, unsigned p, Digit::RealFormatType t, const std::string &got, const std::string &exp, bool is_float = false) {
     const char *f = t == Digit::RealFormatType::Default ? "default" : (t == Digit::RealFormatType::Fixed ? "fixed" : "semifixed");
     std::string k = std::string("c10:") + f + ":";
     if (t != Digit::RealFormatType::Default && p == 0) {
@@ -674,7 +698,9 @@ static std::string c10_class(double d, unsigned p, Digit::RealFormatType t, cons
     if (rest) {
         if (cmp >= 0) return k + "other";
         // subnormal inputs are a separate (recorded) root cause: the scaled big integer is truncated mid-way
-        return k + (((dbits(d) >> 52) & 0x7FF) == 0 ? "round-half-sticky-lost-rounds-down:subnormal" : "round-half-sticky-lost-rounds-down");
+        // (subnormal in the type that was passed: the float overload runs the same code on the float's own fields)
+        const bool subnormal = is_float ? (((fbits(float(d)) >> 23) & 0xFF) == 0) : (((dbits(d) >> 52) & 0x7FF) == 0);
+        return k + (subnormal ? "round-half-sticky-lost-rounds-down:subnormal" : "round-half-sticky-lost-rounds-down");
     }
     return k + (cmp > 0 ? "exact-tie-rounds-away-from-even" : "exact-tie-rounds-down-to-odd");
 }
@@ -706,7 +732,7 @@ static void c10_real(double d, unsigned p, Digit::RealFormatType t, bool is_floa
     std::string got = all.substr(prefix.size());
     std::string exp = ref_format(is_float ? double(float(d)) : d, p, t);
     if (got != exp) {
-        std::string k = c10_class(d, p, t, got, exp);
+        std::string k = c10_class(d, p, t, got, exp, is_float);
         if (is_float) k += ":float";
         vf::fail(k.c_str(), "value=%.17g bits=%016" PRIx64 " precision=%u format=%d got=%s expected=%s", d, dbits(d), p, int(t),
                  got.c_str(), exp.c_str());
